@@ -255,3 +255,21 @@ Theorem C01_separable_sum_total_derivative : forall (phi dphi : nat -> R -> R) (
   (forall k, (k < length x)%nat -> is_derive (phi k) (nth k x 0) (dphi k (nth k x 0))) ->
   dir_at (fun y => vsum (map (fun '(i, v) => phi i v) (idx y))) (map (fun '(i, v) => dphi i v) (idx x)) x.
 Proof. exact dir_sepsum. Qed.
+
+(* ---- the three preference functions of functions.py that differentiate their own cost numerically (InformationEntropy,
+   TemporalVariance, CobbDouglas): the closed-form gradient of Model/Trans.v is the total derivative of the cost the code computes,
+   for every length, wherever it is differentiable; the implementation's numerical derivative is compared with that gradient by
+   interval arithmetic inside Coq (Proofs/TransEval.v). Proofs/TransProofs.v ---- *)
+From DK.Model Require Import Trans.
+From DK.Proofs Require Import TransProofs.
+Theorem C01_temporal_variance_total_derivative : forall c (x : list R), vsum x <> 0 -> dir_at (tvar c) (tvar_grad c x) x.
+Proof. exact tvar_total_derivative. Qed.
+Theorem C01_information_entropy_total_derivative : forall c (x : list R), x <> [] -> (forall k, (k < length x)%nat -> nth k x 0 <> 0) ->
+  dir_at (entropy c) (entropy_grad c x) x.
+Proof. exact entropy_total_derivative. Qed.
+Theorem C01_cobb_douglas_total_derivative : forall c (a x : list R), length a = length x -> (forall k, (k < length x)%nat -> 0 < nth k x 0) ->
+  dir_at (cobb c a) (cobb_grad c a x) x.
+Proof. exact cobb_total_derivative. Qed.
+Theorem C01_adevice_over_any_differentiable_function : forall (F : list R -> R) (g p x : list R), length g = length x -> length p = length x ->
+  dir_at F g x -> dir_at (fun s => F s + dot s p) (vadd g p) x.
+Proof. exact adevice_any_function_total. Qed.
